@@ -19,17 +19,19 @@ CONSTANTS Family,      \* "src" | "dst" | "prog"
 \* pools (TLC configuration files cannot hold negative numbers, hence here)
 Big == Scope = "thorough"
 BalPool == CASE Family = "ill"  -> {0, 5}
+             [] Family = "save" -> {-3, 0, 2, 5}
              [] Family = "src"  -> IF Big THEN {-3, 0, 1, 2, 5, 9} ELSE {-3, 0, 2, 5}
              [] Family = "dst"  -> {0, 5}
              [] Family = "prog" -> IF Big THEN {-3, 0, 2, 5, 9} ELSE {-3, 0, 2, 5}
 AmtPool == CASE Family = "ill"  -> {0, 3}
+             [] Family = "save" -> {0, 2, 3, 5, 6}
              [] Family = "src"  -> IF Big THEN {-1, 0, 1, 2, 3, 6, 8} ELSE {0, 1, 3, 6}
              [] Family = "dst"  -> IF Big THEN {0, 1, 2, 3, 5, 6, 7, 9} ELSE {0, 1, 3, 6, 7}
              [] Family = "prog" -> IF Big THEN {0, 2, 3, 6} ELSE {0, 3, 6}
 CapPool == CASE Family \in {"src", "ill"}  -> {-1, 0, 2, 5}
              [] Family = "dst"  -> IF Big THEN {-1, 0, 1, 2, 5} ELSE {-1, 0, 2, 5}
-             [] Family = "prog" -> {2}
-OvdPool == CASE Family = "prog" -> {3} [] OTHER -> {0, 3}
+             [] Family \in {"prog", "save"} -> {2}
+OvdPool == CASE Family \in {"prog", "save"} -> {3} [] OTHER -> {0, 3}
 
 A == "USD"
 Mon(n)  == [k |-> "mon", asset |-> [k |-> "asset", v |-> A], amt |-> [k |-> "num", v |-> n]]
@@ -124,6 +126,9 @@ Pick == /\ si = 0
              [] Family = "ill"  -> \E s \in SrcFam1 : \E p \in 1..NExpr(s) : \E bad \in Bads : prog' = << Mk(ReplE(s, p, bad), PlainDst) >>
              [] Family = "dst"  -> \E s \in {WorldSrc, [k |-> "acct", e |-> Acc("a")]}, d \in DstFamily : prog' = << Mk(s, d) >>
              [] Family = "prog" -> \E s1 \in ProgStmts, s \in SmallSrc, d \in SmallDst : prog' = << s1, Mk(s, d) >>
+             \* a save (below, at and above the balance; save-all; on either account) and then a draw from a small source
+             [] Family = "save" -> \E s1 \in {Save(n, x) : n \in AmtPool, x \in SrcAccts} \cup {SaveAll(x) : x \in SrcAccts}, s \in SmallSrc :
+                                      prog' = << s1, Mk(s, PlainDst) >>
         /\ si' = 1 /\ UNCHANGED <<bal0, S, last, seed>>
 
 Exec == /\ si >= 1 /\ si <= Len(prog) /\ S.err = ""
